@@ -28,7 +28,30 @@ def lru_slices(q_n, q_len, bfs_caps, bfs_states):
     ]
 
 
+def comp_slices(n, ln, lfu_n):
+    return [
+        dict(name="slru", slice="slru", args=["--n", n, "--len", ln], shards=4),
+        dict(name="twoq", slice="twoq", args=["--n", n, "--len", ln], shards=4),
+        dict(name="arc", slice="arc", args=["--n", n, "--len", ln], shards=4),
+        dict(name="wtiny", slice="wtiny", args=["--n", lfu_n, "--len", ln], shards=4),
+    ]
+
+
+ALL_CORPUS = ["lru", "slru", "twoq", "arc", "wtiny"]
+
 PROPS = {
+    "C01": dict(
+        props_files=["C01"],
+        theorems={"C01": ["C01_lru", "C01_slru", "C01_twoq", "C01_arc", "C01_wtiny", "C01_wtiny_init",
+                          "C01_lru_step", "C01_slru_step", "C01_twoq_step", "C01_arc_step", "C01_wtiny_step"]},
+        slices=dict(quick=lru_slices(1500, 150, 2, 100000) + comp_slices(1500, 150, 800),
+                    thorough=lru_slices(30000, 400, 3, 1000000) + comp_slices(30000, 400, 15000)),
+        corpus=ALL_CORPUS,
+        monitors=["mon_c01"],
+        assumptions=["std HashMap / hashbrown behave as a finite map (the index of each list)",
+                     "2Q quotas are taken as data here (C08 ties them to the ratios)",
+                     "W-TinyLFU: the Bloom geometry is data validated by bloom_geometry_ok on every instance"],
+    ),
     "C06": dict(
         props_files=["C06"],
         theorems={"C06": ["C06_recency_order", "C06_eviction_takes_lru", "C06_peek_lru", "C06_remove_lru",
